@@ -74,6 +74,12 @@ Proof.
 Qed.
 
 
+Lemma varstr_of_eq s : varstr_of s = lib_varstr s.
+Proof.
+  destruct s as [|a [|b r]]; [reflexivity|reflexivity|].
+  unfold varstr_of. destruct a; reflexivity.
+Qed.
+
 (* ---------- to_bytes ---------- *)
 Lemma to_bytes_id x : hexlike x = false -> lib_to_bytes x = x.
 Proof.
@@ -194,7 +200,7 @@ Proof. intros Hh. unfold lib_pkh_to_bech. rewrite Hh, tb_fxi. reflexivity. Qed.
 Definition p2shseg_free (fx : fixes) (hs : list bytes) (st : option string) (e : option enc) (wt : option string) (wv : Z)
   : Prop :=
   String.eqb (fst (addr_wt st e wt wv)) s_p2sh_segwit = false \/
-  (forall x v, In x hs -> lib_varstr x = Some v -> tb fx (H160 (x00 :: v)) = H160 (x00 :: v)).
+  (forall x v, In x hs -> varstr_of x = Some v -> tb fx (H160 (x00 :: v)) = H160 (x00 :: v)).
 
 Lemma address_core_tb fx h dh prefix st e wt wv net :
   tb fx h = h -> tb fx (fst dh) = fst dh -> tb fx (snd dh) = snd dh -> pfx_ok fx net ->
@@ -208,7 +214,7 @@ Proof.
   match goal with |- context [match ?E with EB58 => _ | EBech => _ end] => destruct E eqn:Ee end.
   - (* Base58 *)
     destruct Hpre as [Hpre|Hpre]; [|subst e; discriminate Ee].
-    match goal with |- context [lib_varstr ?HB] => set (hb := HB) end.
+    match goal with |- context [varstr_of ?HB] => set (hb := HB) end.
     assert (Hin : In hb (match h with [] => [fst dh; snd dh] | _ => [h] end)).
     { subst hb. destruct h; [|left; reflexivity].
       match goal with |- context [if ?c then _ else _] => destruct c end; simpl; tauto. }
@@ -216,7 +222,7 @@ Proof.
     { destruct h; simpl in Hin; [destruct Hin as [<-|[<-|[]]]|destruct Hin as [<-|[]]]; assumption. }
     destruct (String.eqb wt1 s_p2sh_segwit) eqn:Ew.
     + destruct Hseg as [Hseg|Hseg]; [discriminate|].
-      destruct (lib_varstr hb) as [v|] eqn:Ev; [|reflexivity].
+      destruct (varstr_of hb) as [v|] eqn:Ev; [|reflexivity].
       specialize (Hseg hb v Hin Ev).
       destruct prefix as [p|].
       * rewrite (Hpre p eq_refl), tb_fxi. rewrite pkh_b58_tb; [reflexivity|apply Hpre; reflexivity|exact Hseg].
@@ -239,7 +245,7 @@ Lemma address_core_tb_ne fx a r dh prefix st e wt wv net :
   tb fx (a :: r) = a :: r -> pfx_ok fx net ->
   ((forall p, prefix = Some p -> tb fx p = p) \/ e = Some EBech) ->
   (String.eqb (fst (addr_wt st e wt wv)) s_p2sh_segwit = false \/
-   (forall v, lib_varstr (a :: r) = Some v -> tb fx (H160 (x00 :: v)) = H160 (x00 :: v))) ->
+   (forall v, varstr_of (a :: r) = Some v -> tb fx (H160 (x00 :: v)) = H160 (x00 :: v))) ->
   lib_address_core H160 fx (a :: r) dh prefix st e wt wv net =
   lib_address_core H160 (fxi fx) (a :: r) dh prefix st e wt wv net.
 Proof.
@@ -249,7 +255,7 @@ Proof.
   - destruct Hpre as [Hpre|Hpre]; [|subst e; discriminate Ee].
     destruct (String.eqb wt1 s_p2sh_segwit) eqn:Ew.
     + destruct Hseg as [Hseg|Hseg]; [discriminate|].
-      destruct (lib_varstr (a :: r)) as [v|] eqn:Ev; [|reflexivity].
+      destruct (varstr_of (a :: r)) as [v|] eqn:Ev; [|reflexivity].
       specialize (Hseg v eq_refl).
       destruct prefix as [p|].
       * rewrite (Hpre p eq_refl), tb_fxi. rewrite pkh_b58_tb; [reflexivity|apply Hpre; reflexivity|exact Hseg].
@@ -265,7 +271,7 @@ Qed.
 Definition p2shseg_free1 (fx : fixes) (h : bytes) (st : option string) (e : option enc) (wt : option string) (wv : Z)
   : Prop :=
   String.eqb (fst (addr_wt st e wt wv)) s_p2sh_segwit = false \/
-  (forall v, lib_varstr h = Some v -> tb fx (H160 (x00 :: v)) = H160 (x00 :: v)).
+  (forall v, varstr_of h = Some v -> tb fx (H160 (x00 :: v)) = H160 (x00 :: v)).
 
 Lemma address_new_tb fx h prefix st e wt wv net :
   h <> [] -> fx_tb fx h = h -> pfx_ok fx net ->
